@@ -1,13 +1,20 @@
 (* C04 cases: the outcome class of decoding entry points and API calls (incl. rendering) must never be a panic. *)
 From Coq Require Import String.
-From UV Require Import Base.Bytes Model.WireTypes Model.Codec Model.Interp Model.Cases18 Model.Messages Model.Cases05 Model.Ops Model.CasesApi.
+From UV Require Import Base.Bytes Model.WireTypes Model.Codec Model.Interp Model.Cases18 Model.Messages Model.Cases05 Model.Ops Model.CasesApi Model.Render.
 
 Inductive case04 :=
 | C4Msg (c : case05)
-| C4Api (c : caseapi).
+| C4Api (c : caseapi)
+| C4Dump (m : list N) (rows : list (list N)).        (* codec.Dump: the bytes printed on each row *)
 
 Definition model_ok04 (c : case04) : bool :=
-  match c with C4Msg c' => model_ok05 c' | C4Api c' => model_okA c' end.
+  match c with
+  | C4Msg c' => model_ok05 c' | C4Api c' => model_okA c'
+  | C4Dump m rows => match dump m with
+                     | Ok r => (fix eq (a b : list (list N)) : bool :=
+                                  match a, b with [], [] => true | x :: a', y :: b' => nlist_eqb x y && eq a' b' | _, _ => false end) r rows
+                     | _ => false end
+  end.
 
 Definition no_panic18 (c : case18) : bool :=
   match c with
@@ -22,4 +29,5 @@ Definition spec_ok04 (c : case04) : bool :=
   | C4Msg _ => true
   | C4Api (CApi _ _ _ RPanic _) => false
   | C4Api _ => true
+  | C4Dump m rows => nlist_eqb (concat rows) m          (* every byte printed once, in order *)
   end.
